@@ -56,7 +56,8 @@ def two_call_statements(c1, c2):
     return out
 
 
-CONTEXTS = ("module", "def", "method", "oneline-def", "oneline-def1", "oneline-if", "nested-def", "decorator")
+CONTEXTS = ("module", "def", "method", "oneline-def", "oneline-def1", "oneline-if", "nested-def", "decorator", "if-block",
+            "try-block", "module-eof")
 
 
 def in_context(stmt, ctx):
@@ -66,6 +67,12 @@ def in_context(stmt, ctx):
         return stmt.replace("\t", " " * n)
     if ctx == "module":
         return ind(0) + "\nRESULT = r\n"
+    if ctx == "if-block":  # indented, but not inside a function or class
+        return "if True:\n    " + ind(4) + "\nRESULT = r\n"
+    if ctx == "try-block":
+        return "try:\n    " + ind(4) + "\nfinally:\n    pass\nRESULT = r\n"
+    if ctx == "module-eof":  # the statement ends the file: no line after it, no final newline
+        return ind(0)
     if ctx == "def":
         return "def build():\n    " + ind(4) + "\n    return r\nRESULT = build()\n"
     if ctx == "method":
@@ -127,7 +134,7 @@ def enumerate_three_calls(ops, params, contexts):
     return out
 
 
-def enumerate_named_functions(contexts=("module", "def", "method")):
+def enumerate_named_functions(contexts=("module", "def", "method", "if-block", "try-block", "module-eof")):
     """one-line / two-line / documented defs passed BY NAME, with neighbours that could be confused with them"""
     out = []
     forms = {
@@ -196,7 +203,7 @@ def enumerate_one_call_with_neighbours(ops=OPS[:3], params=PARAMS, styles=("one"
                         "nonascii-long": f"r = ds.keep('{nm} " + "\u221a\U0001f600" * 12 + f"').{op}({body})",
                     }
                     for shape, stmt in stmts.items():
-                        for ctx in ("module", "def", "method"):
+                        for ctx in ("module", "def", "method", "if-block", "module-eof"):
                             src = in_context(stmt, ctx)
                             if src is not None:
                                 out.append((src, (f"one:{shape}", ctx, (op, p, 1, st), nm)))
